@@ -1,4 +1,4 @@
-From Hannibal Require Import Model.Sys Chk.C09 Inv.C09 Chk.C09q.
+From Hannibal Require Import Model.Sys Chk.C09 Inv.C09 Chk.C09q Chk.C09s.
 From Hannibal Require Props.C09.
 Check Props.C09.C09_acceptor_invariant :
   forall tr m, m09_run m09_init tr = Some m -> wf09 m.
@@ -30,3 +30,9 @@ Check Props.C09.C09_nothing_after_a_processed_unsubscribe :
   forall m b a h m' topic l1 o l2,
   m09q_step m (EvBroker b BHolds a h) = Some m' -> q_bt m b = Some topic ->
   lof (q_done m) topic = l1 ++ (o, TUnsubscribe, a) :: l2 -> (forall o', ~ In (o', TSubscribe, a) l2) -> False.
+Check Props.C09.C09_must_serve_refines_model_and_mailbox :
+  forall tr, chk_C09s tr = true -> accepts tr = true /\ chk_C09q tr = true.
+Check Props.C09.C09_owed_are_the_upgradable_subscribers_of_the_table :
+  forall s m b x h m' topic a,
+  m09s_step s m (EvBroker b BPubBegin x h) = Some m' -> q_bt (s_q m') b = Some topic ->
+  (In a (must_of m' b) <-> In a (table_after (lof (q_done (s_q m')) topic) []) /\ upgrades s a = true).
